@@ -752,4 +752,17 @@ theorem C11_tmgr_in_plan (tb : Tables) (fs : FS) (t : Task) (ops : List Op) (inp
           simp only [ht, if_false]
           rw [p3]; simp [this]
 
+/-! ### the input tarball arrives whole (round 18, defect de5bcc5) -/
+
+/-- **C11, TARBALL directives move the named data whatever its size**: with the temporary file under the tarball closed
+    before the transfer (`Gen.tarFileClosedBeforeTransfer`, read from the client-side input stager), the tarball that is
+    transferred holds every byte of the archive, for every archive size and every buffer size -/
+theorem C11_tarball_whole (size buf : Nat) : tarOnDisk Gen.tarFileClosedBeforeTransfer size buf = size := by
+  have e : Gen.tarFileClosedBeforeTransfer = true := by decide
+  rw [e]; rfl
+
+/-- before the repair: an archive of 20480 bytes behind a buffer of 8192 bytes was transferred with its last 4096 bytes
+    missing (the agent then fails to unpack it) -/
+theorem C11_tarball_whole_witness : tarOnDisk false 20480 8192 = 16384 ∧ tarOnDisk true 20480 8192 = 20480 := by decide
+
 end RPVerif.C11
